@@ -75,8 +75,9 @@ func parseRFC3339TimeUTC(s string) (time.Time, bool) {
 		if !ok {
 			return time.Time{}, false
 		}
-		offsetMinutes, _, ok := parseDateTimeNumericField(&scanner, noTerminator, true, 2, 2, 0, 59)
-		if !ok {
+		offsetMinutes, offsetTerm, ok := parseDateTimeNumericField(&scanner, noTerminator, true, 2, 2, 0, 59)
+		if !ok || offsetTerm != scannerEOF {
+			// the minutes must be the last characters: a NUL or non-ASCII byte also stops the scanner
 			return time.Time{}, false
 		}
 		tzOffsetSeconds = (offsetMinutes + (offsetHours * 60)) * 60
